@@ -124,7 +124,7 @@ pub fn run_corners(rep: &mut Report, runner: &mut Runner, property: &str) {
                 cfg.threads = 2;
                 // a scenario may name its inputs (`inputs:<name>` in its signature): only that target is requested
                 if let Some(t) = p.sig.iter().find_map(|x| x.strip_prefix("inputs:")) {
-                    cfg.inputs = vec![t.to_string()];
+                    cfg.inputs = t.split(',').map(|x| x.to_string()).collect();
                 }
                 let idx = runner.run_here(&cfg, &p.cmds, vec![format!("corner|{label}|{mode}")], &format!("corner scenario {label} ({mode}, trailing={trailing})"));
                 rep.count("corner-scenarios");
@@ -132,7 +132,7 @@ pub fn run_corners(rep: &mut Report, runner: &mut Runner, property: &str) {
                     rep.notes.push(format!("corner scenario {label} ({mode}) ends `{}`: only the verdict is compared there", runner.cases[idx].imp.verdict));
                 }
                 // (a source that reads its own output is not idempotent - the side condition of the C08 theorems excludes it)
-                let self_reading = label.contains("reads-own-output");
+                let self_reading = label.contains("reads-own-output") || label.contains("twin-sources");
                 if (mode == "build" || mode == "needed") && runner.cases[idx].imp.verdict == "ok" && !self_reading {
                     let after = runner.cases[idx].imp.after.clone();
                     let mut vcfg = cfg.clone();
